@@ -44,6 +44,8 @@ def unmarshaller(
     if not nodes:
         return routines.NoOpUnmarshaller(t=t, context=context, var=None)  # type: ignore[arg-type]
 
+    # The graph never emits a node for `Any`: members annotated with it pass through.
+    context[tp.Any] = routines.NoOpUnmarshaller(tp.Any, context=context, var=None)  # type: ignore[arg-type]
     # "root" type will always be the final node in the sequence.
     root = nodes[-1]
     for node in nodes:
